@@ -331,7 +331,11 @@ func c07Run(c *Ctx) {
 	}
 	// one use: every component file x every use descriptor
 	for k := 1; k <= xMax1; k++ {
-		if !seqEnum(c, len(c07Items), k, func(idx []int) bool {
+		nIt := len(c07Items)
+		if k == 4 {
+			nIt = 8
+		}
+		if !seqEnum(c, nIt, k, func(idx []int) bool {
 			if !distinctSlots(idx) {
 				return true
 			}
@@ -358,7 +362,11 @@ func c07Run(c *Ctx) {
 	// two and three uses of the same component with different arguments and slot bodies
 	placePairs := [][]int{{0, 0}, {0, 2}, {1, 3}, {4, 0}, {2, 2}, {3, 3}}
 	for k := 1; k <= xMax2; k++ {
-		if !seqEnum(c, len(c07Items), k, func(idx []int) bool {
+		nIt := len(c07Items)
+		if k == 3 {
+			nIt = 8 // three-item components in multi-use pages: the eight top-level item kinds
+		}
+		if !seqEnum(c, nIt, k, func(idx []int) bool {
 			if !distinctSlots(idx) {
 				return true
 			}
